@@ -35,7 +35,7 @@ import (
 	"verifharness/lib"
 )
 
-const rule = "history case: distinct (tamper, lengths, bytes read first, mode, GOMAXPROCS); document case: distinct (base seeds, plaintext length, cipher, mutation list, script, unwrap mode) with at least one mutation or a failing source; loop case: distinct (segment size, length, mutation, script)"
+const rule = "history case: distinct (tamper, lengths, bytes read first, mode, GOMAXPROCS); document case: distinct (base seeds, plaintext length, cipher, mutation list, script, unwrap mode) with at least one mutation or a failing source; loop case: distinct (segment size, length, mutation, script). Complete enumerations (independent of the seed): toy-AEAD loop tie over segSize in {1,2,3}, content length 0..3*seg+1: truncation at every offset, one bit flip at every byte position, deletion and duplication of every segment (and the swaps/appends listed in the generator), a transient source failure at every offset, each under three fixed reader scripts and one seeded script; real documents: every mutation kind x offset/flip class of the class tables, every unwrap mode, source failure at every offset class x delivery style x failure kind x error value of the palette are each covered at least once per run, but the position inside a class, bits, reader scripts, multi-mutation lists, zero-key cases and histories are drawn from the seed, hence exhaustive=false for the run. Units: `evaluations` counts cases; `traces_validated_against_impl` counts comparisons of an implementation observable (released bytes + terminal error class) with the Lean model's value; cases the model does not cover (histories, pool probe) have monitors only and add no trace."
 
 const S = 65536
 const SS = S + 16
